@@ -890,6 +890,9 @@ def c09_forms():
             ("block", block([I(8), bin_("+", N("gx"), I(9))])), ("yield", y(bin_("+", N("gx"), I(1)))), ("fnlit", fn([], I(1))),
             ("call", call("id", N("gx"))), ("list", lst([N("gx"), bin_("+", N("gx"), I(1))])), ("index", ix1(lst([I(1), I(2)]), bin_("-", N("gx"), N("gx")))),
             ("if-in-if", iff(bin_("<", N("gx"), I(999)), iff(bin_("<", N("gx"), I(998)), I(1)))),
+            ("ifelse-call-assign-false", ife(bin_(">", N("gx"), I(999)), call("id", N("gx")), assign("t", I(2)))), ("ifelse-call-assign-true", ife(bin_("<", N("gx"), I(999)), call("id", N("gx")), assign("t", I(2)))),
+            ("ifelse-op-name-false", ife(bin_(">", N("gx"), I(999)), bin_("*", N("gx"), I(2)), N("gx"))), ("ifelse-index-loop-false", ife(bin_(">", N("gx"), I(999)), ix1(lst([I(1)]), I(0)), fr(["w"], [call("fromto", I(0), I(2))], N("w")))),
+            ("ifelse-assign-index-false", ife(bin_(">", N("gx"), I(999)), assign("t", I(2)), ix1(lst([I(1), I(2)]), I(1)))), ("ifelse-name-call-true", ife(bin_("<", N("gx"), I(999)), N("gx"), call("id", I(3)))),
             ("nested-for", fr(["w"], [call("fromto", I(0), I(2))], fr(["u"], [call("fromto", I(0), I(2))], bin_("+", N("w"), N("u"))))),
             # finishing through return, at top level as well as inside a function
             ("return", ret(bin_("+", N("gx"), I(1)))), ("return-in-if", iff(bin_("<", N("gx"), I(999)), ret(I(5)))), ("return-in-for", fr(["w"], [call("fromto", I(0), I(3))], ret(N("w")))),
@@ -1108,6 +1111,18 @@ def c12_families(tier, seed, ids=None, ck=None):
     if tier == "quick":
         neg = neg[seed % 2::2]
     out.append(("negated comparisons over NaN / infinities x contexts", gens.context_sessions(neg, first_id=1800000, ctx_filter={"top", "midblock", "fntail", "fnret", "arg", "assign", "fnassign", "elem", "ifcond", "whilecond", "ifbody", "forbody", "yield", "write", "opl"}), ("value",)))
+    # logical operators evaluate both operands wherever they are written: right operands that write, fail, or are no booleans, behind a left
+    # operand that already decides the outcome
+    deciders = [Bo(False), Bo(True), bin_("==", N("x"), I(1)), bin_("!=", N("x"), I(1)), un("!", Bo(True))]
+    observables = [I(1), bin_(">", bin_("/", I(10), bin_("-", N("x"), N("x"))), I(1)), N("u"), call("id", Bo(True)), bin_("==", call("write", St("R")), N("u")), St("s"), bin_("<", ix1(N("a"), I(9)), I(1))]
+    lg = []
+    for op in ("&&", "||", "&", "|"):
+        for dcd in deciders:
+            for ob in observables:
+                lg += [bin_(op, dcd, ob), un("!", bin_(op, dcd, ob)), bin_(op, ob, dcd)]
+    if tier == "quick":
+        lg = lg[seed % 3::3]
+    out.append(("logical operators with an observable right operand x contexts", gens.context_sessions(lg, first_id=1900000, ctx_filter={"top", "midblock", "fntail", "arg", "assign", "elem", "ifcond", "ifcondmid", "whilecond", "ifelsefn", "ifbody", "forbody", "yield"}), ("value",)))
     ids = Ids(2000000)
     # rewrite pairs of the property text
     rw = []
@@ -1262,7 +1277,7 @@ def c17_families(tier, seed, ids=None):
     inputs = [["s\n", "x" * 4095 + "\n", "y" * 5000 + "\n", "t\n"], [], ["a\n"], ["a\n", "b\n"], ["l1\n", "l2\n", "l3\n"], ["\n", "x\n"], ["1\n", "2\n", "3\n", "4\n", "5\n"], ["a\n", "b"], ["only"]]
     for inp in inputs:
         for nreads in range(0, 5):
-            for inter in ("plain", "writes", "error", "in-function", "in-loop"):
+            for inter in ("plain", "writes", "error", "failing-read-statement", "in-function", "in-loop"):
                 reads = []
                 for k in range(nreads):
                     if inter == "plain":
@@ -1271,6 +1286,8 @@ def c17_families(tier, seed, ids=None):
                         reads += [call("write", St("w")), call("read")]
                     elif inter == "error":
                         reads += [call("read"), bin_("/", I(1), I(0))]
+                    elif inter == "failing-read-statement":
+                        reads.append(bin_("+", call("read"), I(1)) if k == 0 else call("read"))
                     elif inter == "in-function":
                         reads.append(call("rd"))
                     else:
@@ -1280,7 +1297,7 @@ def c17_families(tier, seed, ids=None):
                 rd.append(mk(ids, [assign("rd", fn([], bin_("+", St(">"), call("read"))))] + reads + [I(1)], {"read": [inp, nreads, inter]}, stdin=inp))
     if tier == "quick":
         keep = [x for x in rd if len(x["meta"]["read"][0]) == 4 and len(x["meta"]["read"][0][1]) > 4000 and x["meta"]["read"][1] == 4]
-        rd = keep + rnd.sample(rd, 80)
+        rd = keep + [x for x in rd if x["meta"]["read"][2] == "failing-read-statement" and x["meta"]["read"][1] >= 2 and len(x["meta"]["read"][0]) in (2, 3, 5)] + rnd.sample(rd, 80)
     out.append(("sequences of read() against piped input", rd, ("value",)))
     return out
 
@@ -1349,6 +1366,12 @@ def c19_families(tier, seed, ids=None):
                                       call("f", v, I(2)), assign("h", fn(["cb", "x"], call("cb", N("x"), I(1)))), call("h", N("f"), v),
                                       assign("g", fn(["q"], block([y(I(1)), inc("q"), y(N("q"))]))), fr(["i"], [call("g", v)], N("i")), call("f", I(5), I(2))],
                          {"err": "increment", "where": "%s %s" % (vname, form)}))
+    # a failing call chain after the compiler refused an oversized statement earlier in the session
+    huge = {"perr": True, "cerr": True, "src": "hg = [" + ", ".join("hv" for _ in range(33001)) + "]"}     # refused by the compiler: a statement without effect
+    for ename in ("zerodiv", "index", "type"):
+        e = errs[ename](N("q"))
+        ss.append(mk(ids, base + [assign("hv", I(1)), assign("dv", fn(["q", "b"], e)), assign("applyq", fn(["h", "x"], call("h", N("x"), I(0)))), assign("topq", fn(["z"], call("applyq", N("dv"), N("z")))),
+                                  call("topq", I(7)), huge, call("topq", I(8)), I(1), huge, call("topq", I(9))], {"err": ename, "where": "after a refused statement"}))
     out = [("every error class x call depth / function-valued parameter / closure / reassigned parameter / loop body / generator / generator of generator", ss, ("value", "report"))]
     rs = gens.random_sessions(60 if tier == "quick" else 3000, seed, "c19", p_ill=0.2, first_id=800000)
     out.append(("random sessions with type confusion", rs, ("value", "report")))
